@@ -4,5 +4,6 @@ NEXT DNext
 CONSTANTS
   MaxLen = 2
   EvalAlg = "lastbroadcast"
+  Extra = FALSE
   AlgFams = {"Shomate"}
 CHECK_DEADLOCK FALSE
